@@ -21,6 +21,7 @@ mod c08;
 mod c09;
 mod c10;
 mod c11;
+mod c13;
 mod c17;
 mod c18;
 
@@ -86,6 +87,11 @@ const PROPS: &[PropDef] = &[PropDef {
     level: "exploration",
     run: c11::run,
     replay: c11::replay,
+}, PropDef {
+    id: "C13",
+    level: "exploration",
+    run: c13::run,
+    replay: c13::replay,
 }, PropDef {
     id: "C17",
     level: "exploration",
